@@ -149,6 +149,7 @@ type RunOpts struct {
 	KeepDir     string
 	MaxPaths    int
 	Kinds       map[string]bool
+	CrossCheck  bool
 }
 
 type RunResult struct {
@@ -221,7 +222,7 @@ func runVerification(o RunOpts) (*RunResult, error) {
 	}
 	rr.Dir = dir
 	t1 := time.Now()
-	discharge(rr.Results, SolveOpts{Dir: dir, Timeout: o.Timeout, Portfolio: o.Portfolio, Jobs: o.Jobs, Kinds: o.Kinds})
+	discharge(rr.Results, SolveOpts{Dir: dir, Timeout: o.Timeout, Portfolio: o.Portfolio, Jobs: o.Jobs, Kinds: o.Kinds, CrossCheck: o.CrossCheck})
 	rr.SolveSeconds = time.Since(t1).Seconds()
 	return rr, nil
 }
